@@ -3,6 +3,9 @@
 import json, subprocess
 
 CHECKS = {
+ "C09": ("exploration", "exhaustive enumeration of base+≤2 diacritics and single-feature variants + generated words, round-trip oracle parse(render(w)) == w",
+         "Complete enumeration of the ~375k segment texts asca accepts as base + up to two diacritics and of every single feature / sub-node change of base(+1 diacritic) (built structurally), plus generated multi-syllable words; each is rendered and re-parsed and compared structurally (and the text must be a fixed point of the empty rule list). The enumerated part is exhaustive for the stated space; the word part is random search.",
+         "Trusted: the hook's parse_word/render_word/word_from_parts wrap Word::new / Word::render unchanged. Bundles listed in known/C09_bundles.txt and click resegmentation are tolerated as known findings.", "DESIGN.md §5 C09"),
  "C02": ("exploration", "grammar-directed + mutation + noise generation (proptest over a choice tape) under catch_unwind and a step-counter hook; libFuzzer in the thorough tier",
          "Random search over four generated input sources (zero-tolerance structured fragment, full-grammar structured, token mutations of valid rules, character noise) through run / get_trace_string / trace_changes and the error formatters; a panic, an abort of the worker, or exhaustion of a step budget counted at every loop head is a violation with a located, replayable signature. Listed known findings (exact signatures) are tolerated and printed; anything else alarms.",
          "Trusted: the tick hook covers every unbounded loop (bounded copy loops are not instrumented); the budget is far above any terminating case seen (max ratio reported in the evidence). Absence of violations is not a proof of termination.", "DESIGN.md §5 C02"),
